@@ -353,6 +353,8 @@ PROPS["C18"] = {
         Leg("exhaustive", "c18", "^TestExhaustive$", engine="enumerate", rapid=False, shards=(8, 8), tests=["exhaustive"]),
         Leg("wrap", "c18", "^TestWrap$", engine="enumerate", rapid=False, shards=(1, 1), tests=["wrap"]),
         Leg("long", "c18", "^TestLong$", checks=(1500, 20000), shards=(1, 16), tests=["long"]),
+        Leg("parallel", "c18", "^TestParallel$", engine="sched", checks=(300, 6000), shards=(2, 16), tests=["parallel"], replay_attempts=5),
+        Leg("parallel-race", "c18", "^TestParallel$", engine="sched", race=True, checks=(100, 2000), shards=(2, 8), tests=["parallel"], replay_attempts=5),
         Leg("concurrent", "c18", "^TestConcurrent$", engine="sched", checks=(400, 12000), shards=(2, 16), tests=["concurrent"]),
         Leg("stress", "c18", "^TestStress$", engine="sched", checks=(300, 6000), shards=(2, 16), tests=["stress"], replay_attempts=10),
         Leg("stress-yield-race", "c18", "^TestStress$", engine="sched", race=True, instrument=["apps/proxy/circular_queue/circular_queue.go"],
